@@ -139,6 +139,7 @@ impl Property for C07 {
             "fsteps": steps_to_json(&steps),
             "only_n": J::Null,
             "single": rng.chance(1, 3),
+            "noprint": rng.chance(1, 8),
         })
     }
 
@@ -158,6 +159,7 @@ impl Property for C07 {
         set_field(case, "format", json!("text"), &mut out);
         set_field(case, "read_mode", json!("line"), &mut out);
         bool_field(case, "follow", false, &mut out);
+        bool_field(case, "noprint", false, &mut out);
         if case.get("only_n").map(|x| x.is_null()).unwrap_or(true) {
             for n in 0..6 {
                 out.push(with_field(case, "only_n", json!(n)));
@@ -311,6 +313,28 @@ impl Property for C07 {
             }
             if (rows >= 2 && n < rows) || n == 0 {
                 out.nontrivial.push(fnv_mix(case_hash, n as u64 * 2));
+            }
+            // the same run with DisplayOptions.print_result = false (benchmark configuration): nothing is
+            // printed, but input consumption must obey the limit all the same
+            if jbool(case, "noprint") {
+                let mut q = b.clone();
+                q.print_result = false;
+                let qr = run(&mut out, &format!("batch LIMIT {} (print_result=false)", n), &q, false);
+                let qfeatures = json!({"kind": kind, "n0": n == 0, "multi_file": files.iter().filter(|f| !f.is_empty()).count() > 1, "mode": "batch_noprint"});
+                if qr.terminated() && qr.status == Status::Ok {
+                    if !records(&qr).is_empty() {
+                        failed(&mut out, "c07.printed_although_disabled", format!("print_result=false but {} records were printed", records(&qr).len()), &q, &qfeatures);
+                        return out;
+                    }
+                    if qr.total_lines as usize != l_n {
+                        failed(&mut out, "c07.consumed_beyond_limit", format!("print_result=false: {} input lines consumed; the {}-th row comes from line {} (of {})", qr.total_lines, n, l_n, all_lines.len()), &q, &qfeatures);
+                        return out;
+                    }
+                } else if qr.terminated() {
+                    failed(&mut out, "c07.error", format!("print_result=false run reports {}", status_label(&qr.status)), &q, &qfeatures);
+                    return out;
+                }
+                out.probe("print_result_false_runs", 1);
             }
             out.probe("limit_zero", (n == 0) as u64);
             out.probe("limit_hit_at_file_boundary", (!aggregate && n >= 1 && n <= rows && files.len() > 1 && file_boundary(&files, l_n)) as u64);
